@@ -359,13 +359,14 @@ theorem rcinv_update (P : A' → List (N × C) → Prop) (rc : RCache K (RStamp 
         exact hrc k' h' s' hq
 
 theorem testList_spec (P : A' → List (N × C) → Prop) (hstore : fx.storeIfAllSucceeded = true)
-    (r : TRepo K A F N C A' G) (tsel : K → Bool) (fl : Flags) (out0 out' : Out K C S N H) (ran : List K) :
+    (hlx : fx.linkXattr = false)
+    (r : TRepo K A F N C A' G) (tsel : K → Bool) (fl : Flags) (out0 out' : Out K C S N H) (ran : List K) (xh : Nat → Option H) :
     ∀ (ts : List (Target K A F)) (res : Results K (RStamp S' G N H)) (rc : RCache K (RStamp S' G N H)),
       RInv fx ruleSerRT pathSer outcome P res → RCInv fx ruleSerRT pathSer outcome P rc → Adm P r tsel out' ts →
-      RInv fx ruleSerRT pathSer outcome P (testList fx ruleSerRT pathSer outcome r tsel fl out0 out' ran ts res rc).1 ∧
-      RCInv fx ruleSerRT pathSer outcome P (testList fx ruleSerRT pathSer outcome r tsel fl out0 out' ran ts res rc).2.1 ∧
+      RInv fx ruleSerRT pathSer outcome P (testList fx ruleSerRT pathSer outcome r tsel fl out0 out' ran xh ts res rc).1 ∧
+      RCInv fx ruleSerRT pathSer outcome P (testList fx ruleSerRT pathSer outcome r tsel fl out0 out' ran xh ts res rc).2.1 ∧
       (fx.verifiesHash = true → InjOn (G := G) fx ruleSerRT pathSer P →
-        outcomes (testList fx ruleSerRT pathSer outcome r tsel fl out0 out' ran ts res rc).2.2 = expected outcome r tsel out' ts) := by
+        outcomes (testList fx ruleSerRT pathSer outcome r tsel fl out0 out' ran xh ts res rc).2.2 = expected outcome r tsel out' ts) := by
   intro ts
   induction ts with
   | nil => intro res rc h hc _; exact ⟨h, hc, fun _ _ => rfl⟩
@@ -408,13 +409,13 @@ theorem testList_spec (P : A' → List (N × C) → Prop) (hstore : fx.storeIfAl
           have hcinv' := rcinv_update fx ruleSerRT pathSer outcome P rc r.cacheOn t.key
             (runtimeSer fx ruleSerRT pathSer r.cfg td.rattrs files) _ hcinv hgood.2
           obtain ⟨h1, h1c, h2⟩ := ih _ _ hinv' hcinv' hadm'
-          refine ⟨by simp only [testList, hs, htd, hf, if_true]; exact h1,
-                  by simp only [testList, hs, htd, hf, if_true]; exact h1c, ?_⟩
+          refine ⟨by simp only [testList, hs, htd, hf, if_true, hlx, Bool.false_eq_true, if_false]; exact h1,
+                  by simp only [testList, hs, htd, hf, if_true, hlx, Bool.false_eq_true, if_false]; exact h1c, ?_⟩
           intro hv hi
           have h3 := h2 hv hi
           have h4 := testOne_res fx ruleSerRT pathSer outcome P hv hi fl (bstateOf pathSer out0 out' ran t.key)
             td.dummy r.cfg td.rattrs files (res t.key) _ hg hh hp
-          simp only [testList, expected, hs, htd, hf, if_true, outcomes, List.map_cons, Option.map_some] at h3 ⊢
+          simp only [testList, expected, hs, htd, hf, if_true, hlx, Bool.false_eq_true, if_false, outcomes, List.map_cons, Option.map_some] at h3 ⊢
           rw [h4]
           exact congrArg (List.cons _) h3
     · simp only [Bool.not_eq_true] at hs
@@ -485,10 +486,11 @@ theorem expected_congr (r : TRepo K A F N C A' G) (tsel : K → Bool) (out out' 
 
 /-- Every report marked cached is a pass that executed nothing. -/
 theorem testList_cached_pass (P : A' → List (N × C) → Prop) (hstore : fx.storeIfAllSucceeded = true)
-    (r : TRepo K A F N C A' G) (tsel : K → Bool) (fl : Flags) (out0 out' : Out K C S N H) (ran : List K) :
+    (hlx : fx.linkXattr = false)
+    (r : TRepo K A F N C A' G) (tsel : K → Bool) (fl : Flags) (out0 out' : Out K C S N H) (ran : List K) (xh : Nat → Option H) :
     ∀ (ts : List (Target K A F)) (res : Results K (RStamp S' G N H)) (rc : RCache K (RStamp S' G N H)),
       RInv fx ruleSerRT pathSer outcome P res → RCInv fx ruleSerRT pathSer outcome P rc → Adm P r tsel out' ts →
-      ∀ k rep, (k, some rep) ∈ (testList fx ruleSerRT pathSer outcome r tsel fl out0 out' ran ts res rc).2.2 →
+      ∀ k rep, (k, some rep) ∈ (testList fx ruleSerRT pathSer outcome r tsel fl out0 out' ran xh ts res rc).2.2 →
         rep.cached = true → rep.res = .pass ∧ rep.runs = 0 := by
   intro ts
   induction ts with
@@ -527,7 +529,7 @@ theorem testList_cached_pass (P : A' → List (N × C) → Prop) (hstore : fx.st
               exact hinv j s hj
           have hcinv' := rcinv_update fx ruleSerRT pathSer outcome P rc r.cacheOn t.key
             (runtimeSer fx ruleSerRT pathSer r.cfg td.rattrs files) _ hcinv hgood.2
-          simp only [testList, hs, htd, hf, if_true, List.mem_cons, Prod.mk.injEq, Option.some.injEq] at hm
+          simp only [testList, hs, htd, hf, if_true, hlx, Bool.false_eq_true, if_false, List.mem_cons, Prod.mk.injEq, Option.some.injEq] at hm
           rcases hm with ⟨_, hrep⟩ | hm
           · subst hrep
             have := testOne_cached_pass fx outcome fl (bstateOf pathSer out0 out' ran t.key) td.dummy td.rattrs files
@@ -623,12 +625,12 @@ def AdmHist (P : A' → List (N × C) → Prop) :
     Adm P r tsel (buildPhase pathSer bfx mv rs exec ruleSer r sel st.out st.bcache).1 r.repo.targets ∧
     AdmHist P ops (testAll fx ruleSerRT pathSer outcome bfx mv rs exec ruleSer r sel tsel fl st).1
   | .build r sel :: ops, st =>
-    AdmHist P ops ⟨(buildPhase pathSer bfx mv rs exec ruleSer r sel st.out st.bcache).1, st.res,
-                   (buildPhase pathSer bfx mv rs exec ruleSer r sel st.out st.bcache).2.1, st.rcache⟩
-  | .rmOut keep :: ops, st => AdmHist P ops ⟨fun k => if keep k then st.out k else none, st.res, st.bcache, st.rcache⟩
-  | .rmRes keep :: ops, st => AdmHist P ops ⟨st.out, fun k => if keep k then st.res k else none, st.bcache, st.rcache⟩
-  | .evictB keep :: ops, st => AdmHist P ops ⟨st.out, st.res, fun q => if keep q then st.bcache q else none, st.rcache⟩
-  | .evictR keep :: ops, st => AdmHist P ops ⟨st.out, st.res, st.bcache, fun q => if keep q then st.rcache q else none⟩
+    AdmHist P ops { st with out := (buildPhase pathSer bfx mv rs exec ruleSer r sel st.out st.bcache).1,
+                            bcache := (buildPhase pathSer bfx mv rs exec ruleSer r sel st.out st.bcache).2.1 }
+  | .rmOut keep :: ops, st => AdmHist P ops { st with out := fun k => if keep k then st.out k else none }
+  | .rmRes keep :: ops, st => AdmHist P ops { st with res := fun k => if keep k then st.res k else none }
+  | .evictB keep :: ops, st => AdmHist P ops { st with bcache := fun q => if keep q then st.bcache q else none }
+  | .evictR keep :: ops, st => AdmHist P ops { st with rcache := fun q => if keep q then st.rcache q else none }
 
 theorem admHist_true : ∀ (ops : List (TOp K A F N C S H A' G (RStamp S' G N H))) (st : TState K C S N H (RStamp S' G N H)),
     AdmHist fx ruleSerRT pathSer outcome bfx mv rs exec ruleSer (fun _ _ => True) ops st := by
@@ -646,7 +648,7 @@ theorem admHist_true : ∀ (ops : List (TOp K A F N C S H A' G (RStamp S' G N H)
     | evictR keep => exact ih _
 
 /-- Every history keeps the invariants of the results files and of the cached results (no injectivity needed) … -/
-theorem runHistT_rinv (P : A' → List (N × C) → Prop) (hstore : fx.storeIfAllSucceeded = true) :
+theorem runHistT_rinv (P : A' → List (N × C) → Prop) (hstore : fx.storeIfAllSucceeded = true) (hlx : fx.linkXattr = false) :
     ∀ (ops : List (TOp K A F N C S H A' G (RStamp S' G N H))) (st : TState K C S N H (RStamp S' G N H)),
       RInv fx ruleSerRT pathSer outcome P st.res → RCInv fx ruleSerRT pathSer outcome P st.rcache →
       AdmHist fx ruleSerRT pathSer outcome bfx mv rs exec ruleSer P ops st →
@@ -660,9 +662,9 @@ theorem runHistT_rinv (P : A' → List (N × C) → Prop) (hstore : fx.storeIfAl
     cases op with
     | test r sel tsel fl =>
       obtain ⟨ha, hrest⟩ := hadm
-      have := testList_spec fx ruleSerRT pathSer outcome P hstore r tsel fl st.out
+      have := testList_spec fx ruleSerRT pathSer outcome P hstore hlx r tsel fl st.out
         (buildPhase pathSer bfx mv rs exec ruleSer r sel st.out st.bcache).1
-        (buildPhase pathSer bfx mv rs exec ruleSer r sel st.out st.bcache).2.2 r.repo.targets st.res st.rcache h hc ha
+        (buildPhase pathSer bfx mv rs exec ruleSer r sel st.out st.bcache).2.2 st.xh r.repo.targets st.res st.rcache h hc ha
       exact ih _ this.1 this.2.1 hrest
     | build r sel => exact ih _ h hc hadm
     | rmOut keep => exact ih _ h hc hadm
